@@ -11,6 +11,8 @@ from .refmodel import Invalid, ev
 def setup_process():
     """Determinism of the environment the library looks at."""
     warnings.simplefilter('ignore')
+    import logging
+    logging.getLogger('lazy_dataset').setLevel(logging.CRITICAL)  # catch(warn=True) logs every dropped example
     import psutil
     gib = 1024 ** 3
     psutil.virtual_memory = lambda: types.SimpleNamespace(total=64 * gib, available=48 * gib)
